@@ -46,7 +46,8 @@ EXPLANATION = (
     "also extends the list that `<t> = '+'.join(...)` is built from before the iteration ends (fall-through, continue, break) - an "
     "emitted input term is never left out of the target's sum.  R8 in the edge-equation generator and its private helpers no entry of "
     "an array with the weight role is located by argmax/argmin of its signed values (only on a mask / magnitude), with synthetic "
-    "controls.  NOT decided: "
+    "controls.  R9 a loop over self.connections skips a connection only under an exact emptiness test of its weights (not np.any, "
+    "count_nonzero == 0, all(w == 0)), never under a tolerance test (allclose / isclose / abs < eps).  NOT decided: "
     "numerical equality of trajectories, the semantics of numpy/einsum (trusted), edge templates with more than the enumerated forms, "
     "user edge dictionaries that themselves contain source_idx/target_idx."
 )
